@@ -1301,3 +1301,23 @@ Lemma all_transparentb_complete u c : Forall2 step_transparent u c -> all_transp
 Proof.
   induction 1 as [|a b u c Hab _ IH]; [reflexivity|]. cbn. now rewrite (step_transparentb_complete a b Hab), IH.
 Qed.
+
+(* root_args only depends on the producing function *)
+Lemma root_args_same p o o' f : producer p o = Some f -> producer p o' = Some f -> root_args p o = root_args p o'.
+Proof.
+  intros H1 H2. unfold root_args, arg_combinations, is_node, is_output. now rewrite H1, H2.
+Qed.
+
+Theorem no_reexec_resident' body pick {C} (P : policy C) p : wf_pipeline p -> never_evicts P ->
+  forall kw full c o f0 o0 ra k0 r lg c',
+    In f0 p -> In o0 (outs f0) -> root_args p o0 = Ok ra -> the_key p kw true f0 ra = Some k0 ->
+    cmem P c k0 = true ->
+    crun body pick P false true p c o kw full = (r, lg, c') ->
+    (forall call, In call lg -> fst call <> fname f0) /\ cmem P c' k0 = true.
+Proof.
+  intros WF NE kw full c o f0 o0 ra k0 r lg c' Hf Ho0 Hra Hk Hm H.
+  apply (no_reexec_resident body pick P p WF kw full c o f0 k0 r lg c' Hf); try assumption.
+  intros o' ra' Ho' Hra'. pose proof (proj1 (proj2 (wf_parts p WF))) as Hnd.
+  rewrite (root_args_same p o' o0 f0 (producer_unique p o' f0 Hnd Hf Ho') (producer_unique p o0 f0 Hnd Hf Ho0)) in Hra'.
+  rewrite Hra in Hra'. injection Hra' as <-. exact Hk.
+Qed.
